@@ -13,6 +13,9 @@ import ast
 import os
 
 BASELINE = (3, 4, 8, 10, 16, 20, 25, 64, 100, 1000, 100000)
+# capacities of the narrow integer types (one past the largest int8 / uint8 / int16 / uint16): thresholds a library can have without writing them
+# down (np.min_scalar_type, an index kept in the type of the caller's numbers).  Always part of the plan, like the BASELINE constants.
+CAPACITY = (128, 256, 32768, 65536)
 LO, HI = 3, 1 << 26
 _cache = {}
 
@@ -65,19 +68,19 @@ def plan(repo, tier, cap=300000, files=None, cap_cells=1 << 23):
     (None = all).  Sizes above `cap` are used as numbers of cells / lengths of one row only (up to `cap_cells`, novel constants only);
     anything larger is left out (resource limit of the workload, recorded in the evidence)."""
     consts = harvest(repo)
-    novel = [c for c in consts if c not in BASELINE and (files is None or any(f in files for f in consts[c]))]
+    novel = [c for c in consts if c not in BASELINE and c not in CAPACITY and (files is None or any(f in files for f in consts[c]))]
     # a large constant may be a budget in bytes or in bits: the element counts it corresponds to (item sizes 2, 4, 8 bytes; 8 bits) count as well
     derived = []
     for c in novel:
         if c >= 4096:
-            derived += [c // k for k in (2, 4, 8) if c % k == 0 and c // k not in BASELINE and c // k not in consts]
+            derived += [c // k for k in (2, 4, 8) if c % k == 0 and c // k not in BASELINE and c // k not in CAPACITY and c // k not in consts]
     novel = novel[:16] + sorted(set(derived))[:24]
-    base = [c for c in BASELINE]
+    base = sorted(set(BASELINE) | set(CAPACITY))
     out = []
     seen = set()
     for grp, isnovel in ((novel, True), (base, False)):
         for c in grp:
-            for d in ((0, 1, -1) if (isnovel or c <= 1000) else (0, 1)):
+            for d in ((0, 1, -1) if (isnovel or c <= 1000 or c in CAPACITY) else (0, 1)):
                 s = c + d
                 if s < 2 or (s, isnovel) in seen or s > (cap_cells if isnovel else cap):
                     continue
@@ -98,5 +101,5 @@ def plan(repo, tier, cap=300000, files=None, cap_cells=1 << 23):
 
 def summary(repo, cap=300000, cap_cells=1 << 23):
     consts = harvest(repo)
-    return {"constants": {str(k): v for k, v in consts.items()}, "novel": [c for c in consts if c not in BASELINE],
+    return {"constants": {str(k): v for k, v in consts.items()}, "novel": [c for c in consts if c not in BASELINE and c not in CAPACITY], "capacity_boundaries": list(CAPACITY),
             "only_as_cells_or_row_length": [c for c in consts if cap < c + 1 <= cap_cells], "left_out": [c for c in consts if c + 1 > max(cap, cap_cells)]}
